@@ -14,7 +14,7 @@ RULE = ("four kinds of generated cases on C03 systems with repeated molecule nam
         "selection (name and index, resname and resid); (2) -start specifications with every subset of fields - "
         "the residue placed with a start placement must be the first residue matching the specification; "
         "(3) -lig specifications - after the run the ligand residue sits one step (minimum image) from its host "
-        "residue, hosts have their original residues, the molecule list is unchanged; (4) one to three -split specifications with new residue names from a shared pool - "
+        "residue, hosts have their original residues, the molecule list is unchanged; (4) one to three -split specifications with new residue names from a shared pool, alone or together with a build file whose directives name the new residues - "
         "the new residues partition the atoms, named atoms carry the new residue name, the .gro lists every atom "
         "once in the original order. non-trivial = two [ molecule ] blocks for one name with different ranges, a "
         "block covering a molecule of another name, a specification with an omitted field, a ligand, or a split; "
@@ -204,8 +204,49 @@ def _split_lig_case(draw):
     return spec
 
 
+@st.composite
+def _split_parse_case(draw):
+    """-split together with a build file whose residue-level directives name the residues as they are after
+    the split (new names, new numbering, ranges that reach beyond the old highest residue id)"""
+    spec = draw(_split_case())
+    names = _mol_names(spec)
+    nmol = len(names)
+    by_name = {mt["name"]: mt for mt in spec["moltypes"]}
+    edge = spec["opts"]["box"][0] + 1.0
+    spec["opts"]["box"] = [edge, edge, edge]
+    new_names = sorted({n for sp in spec["split"] for n in sp["groups"]})
+    build, blocks = [], []
+    for _ in range(draw(st.integers(1, 2))):
+        name = draw(st.sampled_from(sorted(set(names))))
+        lo = draw(st.integers(0, nmol - 1))
+        hi = draw(st.integers(lo + 1, nmol))
+        mt = by_name[name]
+        old = sorted({r["resname"] for r in mt["residues"]})
+        top = 3 * len(mt["residues"]) + 1
+        build += ["[ molecule ]", f"{name} {lo} {hi}"]
+        block = {"name": name, "lo": lo, "hi": hi, "directives": []}
+        for _k in range(draw(st.integers(1, 3))):
+            kind = draw(st.sampled_from(["sphere", "rectangle", "cylinder"]))
+            resname = draw(st.sampled_from(new_names + new_names + old))
+            r0 = draw(st.integers(0, top - 1))
+            r1 = draw(st.integers(r0 + 1, top))
+            centre = [edge / 2.0] * 3
+            size = round(0.45 * edge + draw(st.integers(0, 9)) / 100.0, 2)
+            params = {"sphere": [size], "cylinder": [size, size], "rectangle": [size, size, size]}[kind]
+            build += [f"[ {kind} ]", f"{resname} {r0} {r1} in " + " ".join(repr(float(c)) for c in centre) + " "
+                      + " ".join(repr(float(p)) for p in params)]
+            block["directives"].append({"kind": kind, "resname": resname, "r0": r0, "r1": r1, "params": params,
+                                        "centre": centre})
+        blocks.append(block)
+    spec["build"] = build
+    spec["blocks"] = blocks
+    spec["kind"] = "split_parse"
+    return spec
+
+
 def strategy(tier):
-    return st.one_of(_parse_case(), _parse_case(), _start_case(), _lig_case(), _split_case(), _split_lig_case())
+    return st.one_of(_parse_case(), _parse_case(), _start_case(), _lig_case(), _split_case(), _split_lig_case(),
+                     _split_parse_case())
 
 
 def min_image(vec, box):
@@ -239,7 +280,7 @@ def check(spec, ctx):
             raise Reject(str(res.exc)[:200])
         raise crash(f"{kind}:crash", res.exc)
     topo = res.topology
-    if kind not in ("split", "split_lig"):
+    if kind not in ("split", "split_lig", "split_parse"):
         c03.check_gro_listing(spec, res)
     if kind == "parse":
         check_parse(spec, ctx, topo, names)
@@ -250,6 +291,25 @@ def check(spec, ctx):
     elif kind == "split_lig":
         check_split(spec, ctx, res, topo, names)
         check_split_lig(spec, ctx, res, topo, names)
+    elif kind == "split_parse":
+        check_split(spec, ctx, res, topo, names)
+        # the residue a node stands for is the one the output file shows for its atoms
+        flat = 0
+        for mi, meta in enumerate(topo.molecules):
+            index_of = {key: flat + i for i, key in enumerate(meta.molecule.nodes)}
+            flat += len(index_of)
+            for node in meta.nodes:
+                at = meta.nodes[node]
+                shown = {(res.gro["atoms"][index_of[a]]["resid"], res.gro["atoms"][index_of[a]]["resname"])
+                         for a in at["graph"].nodes}
+                if shown != {(at["resid"] % 100000, at["resname"])}:
+                    raise Violation("split:node_vs_output_residue", f"molecule {mi} residue node {node} is {at['resname']}{at['resid']}, "
+                                                                    f"its atoms are written as {sorted(shown)}")
+        check_parse(spec, ctx, topo, names)
+        selected = sum(1 for meta in topo.molecules for n in meta.nodes if meta.nodes[n].get("restraints"))
+        if selected:
+            ctx.label("split_then_directive_selected")
+        ctx.nontrivial = True
     else:
         check_split(spec, ctx, res, topo, names)
 
